@@ -381,15 +381,26 @@ def clause4_pong(ctx, P):
 def clause5_handshake(ctx, P, cg):
     sur = P.fn("websocket.c:send_upgrade_response")
     hc = P.fn("websocket.c:websocket_upgrade_on_headers_complete")
-    sk = P.fn("websocket.c:save_websocket_key")
+    sk = P.fn("websocket.c:save_websocket_key", required=False)
+    sk_folded = sk is None        # the helper folded into the header-value callback by hand: the same tests, on its parameters
+    if sk_folded:
+        sk = P.fn("websocket.c:websocket_upgrade_on_header_value")
     # GUID literal
     guid_ok = any(Q.global_text(P, g) == GUID for g in P.globals.values() if g.get("file", "").endswith("websocket.c"))
     ctx.ob("C12.5 R-TABLE", sk, "guid-literal", guid_ok, "the RFC 6455 GUID literal %s is not present" % GUID)
     KEYLEN = 24
+
+    def len_is_24(a, p):
+        return a[0] == "cmp" and a[2][0] == "param" and a[2][1] == 2 and a[3] == ("const", KEYLEN) and Q._poleq(a, p)
     ok_len = False
-    for v in Q.path_views(ctx, P, sk):
-        if v.ret_const() == 0:
-            ok_len = v.has_atom(lambda a, p: a[0] == "cmp" and a[2][0] == "param" and a[2][1] == 2 and a[3] == ("const", KEYLEN) and Q._poleq(a, p))
+    if sk_folded:
+        cps = [c for c in sk.all_insts() if c.op == "call" and c.callee and P.srcname_of(c.callee).startswith(("memcpy", "llvm.memcpy")) and
+               Q.mentions(P.term(sk, c.a[0]), lambda x: x[0] == "field" and x[3] == "sec_web_socket_key")]
+        ok_len = bool(cps) and all(Q.must_pass(P, sk, c.block, len_is_24) for c in cps)
+    else:
+        for v in Q.path_views(ctx, P, sk):
+            if v.ret_const() == 0:
+                ok_len = v.has_atom(len_is_24)
     ctx.ob("C12.5 R-GATE", sk, "key-length-24", ok_len, "a key of a length other than 24 is accepted")
     for c in sur.calls("SHA1Input"):
         src = P.term(sur, c.a[1])
@@ -481,6 +492,8 @@ def clause5_handshake(ctx, P, cg):
                     state.add(t[3])
 
                     def succeeded(atom, pol, checker=checker):
+                        if checker == "save_websocket_key" and sk_folded:
+                            return len_is_24(atom, pol)
                         return atom[0] == "cmp" and atom[3] == ("const", 0) and Q.mentions(atom[2], lambda x: Q.is_call_to(x, checker)) and Q._poleq(atom, pol)
                     if not Q.must_pass(P, hvf, i.block, succeeded):
                         guarded = False
@@ -644,7 +657,8 @@ def clause6_transparency(ctx, P, cg):
     gp = P.fn("websocket.c:ws_get_payload")
     ok = False
     for v in Q.path_views(ctx, P, gp):
-        if v.has_atom(lambda a, p: a[0] == "switch" and a[2] == WS_ERROR):
+        if v.has_atom(lambda a, p: (a[0] == "switch" and a[2] == WS_ERROR) or
+                      (a[0] == "cmp" and Q.is_call_to(a[2], "ws_handle_frame") and a[3] == ("const", WS_ERROR) and Q._poleq(a, p))):
             hs = [i for _, i in v.calls("handle_error")]
             ok = len(hs) == 1 and v.ret_const() == BS_CLOSED
     ctx.ob("C12.6 R-SIB", gp, "ws-error-closes", ok, "WS_ERROR from the message callback does not close the connection")
